@@ -38,6 +38,42 @@ thread_local! {
     static PANIC_LOC: RefCell<String> = RefCell::new(String::new());
 }
 
+/// The log backend seam. cactusref logs through the `log` facade, whose macros
+/// evaluate their arguments only when a logger accepts the level: whether a logger is
+/// installed is a configuration the library's memory behaviour can depend on. This
+/// backend formats every record into a counting sink (no allocation) so that the
+/// arguments are really evaluated; the maximum level is a per-run knob.
+struct SinkLogger;
+struct Sink(u64);
+impl std::fmt::Write for Sink {
+    fn write_str(&mut self, s: &str) -> std::fmt::Result {
+        self.0 = self.0.wrapping_add(s.len() as u64);
+        Ok(())
+    }
+}
+impl log::Log for SinkLogger {
+    fn enabled(&self, _: &log::Metadata<'_>) -> bool {
+        true
+    }
+    fn log(&self, record: &log::Record<'_>) {
+        use std::fmt::Write;
+        let mut s = Sink(0);
+        let _ = write!(s, "{}", record.args());
+        LOGGED.fetch_add(1, Relaxed);
+    }
+    fn flush(&self) {}
+}
+static LOGGER: SinkLogger = SinkLogger;
+static LOGGED: std::sync::atomic::AtomicU64 = std::sync::atomic::AtomicU64::new(0);
+
+fn set_log_level(trace: bool) {
+    static ONCE: std::sync::atomic::AtomicBool = std::sync::atomic::AtomicBool::new(false);
+    if !ONCE.swap(true, Relaxed) {
+        let _ = log::set_logger(&LOGGER);
+    }
+    log::set_max_level(if trace { log::LevelFilter::Trace } else { log::LevelFilter::Off });
+}
+
 pub fn last_panic_location() -> String {
     alloc::har(|| PANIC_LOC.with(|l| l.borrow().clone()))
 }
@@ -90,10 +126,13 @@ pub struct ExecOut {
     pub delta: [u64; NSTATS],
 }
 
+static LOG_TRACE: std::sync::atomic::AtomicBool = std::sync::atomic::AtomicBool::new(false);
+
 fn ctx_head(profile: &str, seed: u64, run: u64, exec_i: u64, layouts: &[u64], faults: &Faults) -> String {
     let l: Vec<String> = layouts.iter().map(|x| x.to_string()).collect();
+    let lt = LOG_TRACE.load(Relaxed) as u8;
     format!(
-        "{{\"type\":\"violation\",\"profile\":\"{profile}\",\"seed\":{seed},\"run\":{run},\"exec\":{exec_i},\"layouts\":[{}],\"faults\":\"{}\",\"ops\":\"",
+        "{{\"type\":\"violation\",\"profile\":\"{profile}\",\"seed\":{seed},\"run\":{run},\"exec\":{exec_i},\"log_trace\":{lt},\"layouts\":[{}],\"faults\":\"{}\",\"ops\":\"",
         l.join(","),
         json_escape(&faults.text())
     )
@@ -280,6 +319,13 @@ fn do_run(rc: &RunCfg<'_>, run: u64) {
     let none = Faults::default();
     let mut opts = ExecOpts { dtor_downgrade_p: kn.dtor_downgrade_p, want_snaps: p.want_snaps, record_dtors: false, layout_noise: false, c16_markers: false };
     st(St::runs, 1);
+    // log backend: in one run out of eight a Trace-level logger evaluates every record
+    let trace = Rng(mix(rc.seed, run, 9)).chance(1, 8);
+    LOG_TRACE.store(trace, Relaxed);
+    set_log_level(trace);
+    if trace {
+        st(St::f_log_trace_runs, 1);
+    }
     let mut run_digest;
     match p.mode {
         Mode::Plain if p.name == "C08" && cfg_rng.chance(1, 4) => {
@@ -786,6 +832,8 @@ fn replay(a: &Args) -> i32 {
     let mut faults = Faults::parse(a.get("--faults").unwrap_or("")).unwrap_or_else(|e| die(&e));
     faults.inline = inline;
     report::SOFT_MASK.store(if a.has("--all-oracles") { report::S_ALL } else { report::soft_mask_for(pname) }, Relaxed);
+    LOG_TRACE.store(a.has("--log-trace"), Relaxed);
+    set_log_level(a.has("--log-trace"));
     let layouts: Vec<u64> = a.get("--layouts").unwrap_or("1").split(',').filter(|s| !s.is_empty()).map(|s| s.parse().unwrap_or_else(|_| die("bad layout"))).collect();
     shared::init();
     alloc::init(true);
